@@ -261,6 +261,11 @@ Definition rel_layout (c : efcore) (is_rela : bool) : layout :=
   if c_mips64rel c then (if is_rela then gen_Elf_Rela_mips64 (c_le c) else gen_Elf_Rel_mips64 (c_le c))
   else (if is_rela then gen_Elf_Rela (c_le c) (c_is64 c) else gen_Elf_Rel (c_le c) (c_is64 c)).
 
+(* ---- structs.py _create_elf_hash: Elf_word entries, Elf_word64 for ELFCLASS64 EM_ALPHA / EM_S390 *)
+Definition hash_layout (c : efcore) : layout :=
+  if hash_is_wide (c_is64 c) (hty (c_hdr c) "e_machine") then Elf_Hash_wide (c_le c)
+  else gen_Elf_Hash (c_le c) (c_is64 c).
+
 (* ---- AttributesSection.__init__: format_version byte 'A' at sh_offset *)
 Definition attributes_init (ef : elffile) (r : hrec) : res unit :=
   let c := ef_core ef in
@@ -324,7 +329,7 @@ Definition make_section (ef : elffile) (h : option hrec) : res sect :=
   else if is_name ty "SHT_HASH" then
     do _ <- get_linked_symtab_section ef (hz r "sh_link");
     do s <- mk_sect ef r name "ELFHashSection";
-    do _ <- struct_parse_at (gen_Elf_Hash (c_le c) (c_is64 c)) [] (c_img c) (hz r "sh_offset");
+    do _ <- struct_parse_at (hash_layout c) [] (c_img c) (hz r "sh_offset");
     Ok s
   else if is_name ty "SHT_GNU_HASH" then
     do _ <- get_linked_symtab_section ef (hz r "sh_link");
